@@ -108,6 +108,11 @@ fn main() {
                 "vecgrid" => scen_exec::run_vecgrid(seed, tier, &mut out),
                 "codeops" => scen_exec::run_codeops(seed, tier, args.get(5).map(|s| s.as_str()).unwrap_or("CODE."), &mut out),
                 "stkgrid" => scen_grid::run(&mut out),
+                "registry" => out(format!(
+                    "( registry {} {} )",
+                    args.get(5).map(|s| s.as_str()).unwrap_or("C01"),
+                    stategen::instruction_names().join(" ")
+                )),
                 "scalargrid" => scen_grid::run_scalar(args.get(5).map(|s| s.as_str()).unwrap_or("INTEGER."), &mut out),
                 "stack-exh" => scen_stack::run_exhaustive(if tier == "thorough" { 4 } else { 3 }, &mut out),
                 _ => {
